@@ -337,6 +337,9 @@ def run_shard(spec_, res):
     from rv.modules import MODULE_CLASSES
     monitors.install()
     rng = random.Random(env.shard_seed(spec_["shard"]))
+    # two MetaModules carrying the same labels on different slots, addressed alternately through `u_<label>`
+    from .. import aliasprobe
+    aliasprobe.run(res, PROPERTY, random.Random(env.shard_seed(spec_["shard"]) + 5), 25 if spec_["tier"] == "quick" else 250, pairs=True)
     # long-lived sentinels: one instance of every type + a project + a pattern
     sentinels = {}
     sp = spec.load()
